@@ -10,7 +10,7 @@ import typing as t
 from ._authentication import AuthenticationCredential, AuthenticationOptions
 from ._controls import ControlOptions, LDAPControl, unpack_ldap_control
 from ._filter import FilterOptions, LDAPFilter
-from .asn1 import ASN1Reader, ASN1Tag, ASN1Writer, TagClass
+from .asn1 import ASN1Reader, ASN1Tag, ASN1Writer, NotEnougData, TagClass
 
 
 @dataclasses.dataclass
@@ -49,6 +49,19 @@ def unpack_ldap_message(
         LDAPMessage: The unpacked message object.
     """
     message = reader.read_sequence(hint="LDAPMessage")
+    try:
+        return _unpack_ldap_message_content(message, options)
+    except NotEnougData as e:
+        # The whole LDAPMessage envelope was available so running out of data
+        # inside it means the content is malformed, not that more data is
+        # still to come.
+        raise ValueError(f"LDAPMessage content is truncated or has an invalid length: {e}") from e
+
+
+def _unpack_ldap_message_content(
+    message: ASN1Reader,
+    options: PackingOptions,
+) -> LDAPMessage:
     message_id = message.read_integer(hint="LDAPMessage.messageId")
 
     protocol_op_header = message.peek_header()
